@@ -79,6 +79,9 @@ pub enum UnmarshalError {
     /// A string or signature was not terminated by a nul byte
     #[error("A string or signature was not terminated by a nul byte")]
     MissingNulTerminator,
+    /// A message was longer than 128MiB or an array was longer than 64MiB
+    #[error("A message was longer than 128MiB or an array was longer than 64MiB")]
+    MessageTooLong,
     /// No more values can be read from this message
     #[error("No more values can be read from this message")]
     EndOfMessage,
